@@ -479,10 +479,15 @@ class Exec:
         return PyDict(items)
 
     def ev_DictComp(self, node, st):
-        if len(node.generators) != 1 or node.generators[0].ifs:
+        if len(node.generators) != 1:
             raise Unsupported("dict comprehension shape")
         g = node.generators[0]
-        it = lift(self.ev(g.iter, st))
+        it = self.ev(g.iter, st)
+        if isinstance(it, DictItems) and it.mode == "items":
+            return self.dict_comp_symbolic(node, it.d, st)
+        if g.ifs:
+            raise Unsupported("dict comprehension shape")
+        it = lift(it)
         if not isinstance(it, PyTup):
             raise Unsupported("dict comprehension over a symbolic iterable")
         items = {}
@@ -491,6 +496,46 @@ class Exec:
             self.bind_target(g.target, x, sub)
             items[self._pykey(self.ev(node.key, sub))] = self.ev(node.value, sub)
         return PyDict(items)
+
+    def dict_comp_symbolic(self, node, d, st):
+        """{k: e for k, v in d.items() if c} over a dict with distinct keys, the key expression being the source key:
+        a filter/map that keeps the source order (fold function generated from the text, like list comprehensions)"""
+        g = node.generators[0]
+        if not (isinstance(g.target, (ast.Tuple, ast.List)) and len(g.target.elts) == 2 and isinstance(g.target.elts[0], ast.Name)
+                and isinstance(node.key, ast.Name) and node.key.id == g.target.elts[0].id):
+            raise Unsupported("dict comprehension whose key is not the source key")
+        used = set()
+        for part in [node.value] + list(g.ifs):
+            used |= {n.id for n in ast.walk(part) if isinstance(n, ast.Name)}
+        tnames = {n.id for n in ast.walk(g.target) if isinstance(n, ast.Name)}
+        free = [(n, st.env[n]) for n in sorted(used & set(st.env)) if n not in tnames and isinstance(st.env[n], V) and st.env[n].ty is not NONE]
+        import hashlib as _h
+        sig = "dict|%s|%s|%s|%s|%s" % (ast.unparse(node.value), ast.unparse(g.target), [ast.unparse(c) for c in g.ifs], d.ty.name,
+                                       [(n, v.ty.name) for n, v in free])
+        fname = "dcomp_" + _h.md5(sig.encode()).hexdigest()[:10]
+        T = d.ty
+        if fname not in _comp_cache:
+            params = [z3.Const(fname + "_it", T.sort())] + [z3.Const(fname + "_" + n, v.ty.sort()) for n, v in free]
+            sub = State({n: V(v.ty, p) for (n, v), p in zip(free, params[1:])})
+            for n, v in st.env.items():
+                if n not in sub.env and not isinstance(v, V):
+                    sub.env[n] = v
+            pv = V(T, params[0])
+            self.bind_target(g.target, PyTup([V(T.key, T.k(pv.t)), V(T.val, T.v(pv.t))]), sub)
+            old_spec = self.ctx.spec_mode
+            self.ctx.spec_mode = True
+            try:
+                conds = [truthy(self.ev(c, sub)) for c in g.ifs]
+                cond = z3.And(*conds) if conds else z3.BoolVal(True)
+                val = coerce(self.ev(node.value, sub), T.val)
+            finally:
+                self.ctx.spec_mode = old_spec
+            f = rec_function(fname, *([p.sort() for p in params] + [T.sort()]))
+            rec = f(*([T.tl(pv.t)] + params[1:]))
+            add_definition(f, params, z3.If(T.is_nil(pv.t), T.nil, z3.If(cond, T.cons(T.k(pv.t), val.t, rec), rec)))
+            _comp_cache[fname] = (f, T)
+        f, _ = _comp_cache[fname]
+        return V(T, f(*([d.t] + [v.t for _, v in free])))
 
     def ev_Lambda(self, node, st):
         env = dict(st.env)
@@ -679,6 +724,8 @@ class Exec:
             if isinstance(a, PyTup):
                 a = coerce(a, SEQ_STR)
                 return V(STR, z3.Function("str_join", z3.StringSort(), a.ty.sort(), z3.StringSort())(s, a.t))
+            # any other iterable of strings: the joined text is left unconstrained (an over-approximation)
+            return fresh(STR, "joined")
         raise Unsupported("str.%s (line %d)" % (name, node.lineno))
 
     # ---- lvalues
